@@ -128,6 +128,8 @@ pub struct Srv {
   names: BTreeMap<String, ModuleReference>,
   /// the (abstract or free-form) content currently at each module name
   pub contents: BTreeMap<String, Value>,
+  /// a free-form content has occurred in this history: Server.tla can no longer follow it
+  pub freeform_seen: bool,
 }
 
 fn mref(heap: &mut Heap, name: &str) -> ModuleReference {
@@ -180,7 +182,7 @@ impl Srv {
         names.insert(n.clone(), m);
         hs.insert(m, t.clone());
       }
-      Srv { state: ServerState::new(heap, false, hs), names, contents: BTreeMap::new() }
+      Srv { state: ServerState::new(heap, false, hs), names, contents: BTreeMap::new(), freeform_seen: false }
     })
   }
 
@@ -286,7 +288,7 @@ impl Srv {
   pub fn exec(&mut self, op: &Value) -> Value {
     let name = op["op"].as_str().unwrap();
     let mut ev = json!({"ev": name});
-    let was_abstract = self.all_abstract();
+    let was_abstract = self.all_abstract() && !self.freeform_seen;
     let r = match name {
       "Update" => {
         let mut ups = vec![];
@@ -325,6 +327,9 @@ impl Srv {
       }
       other => panic!("unknown server op {other}"),
     };
+    if !self.all_abstract() {
+      self.freeform_seen = true;
+    }
     ev["abstract"] = json!(was_abstract && self.all_abstract());
     if let Err(p) = r {
       ev["panic"] = json!(p);
@@ -488,6 +493,7 @@ pub fn replay(args: &[String]) {
     for (n, c) in &logged {
       srv.contents.insert(n.clone(), c.clone());
     }
+    srv.freeform_seen = !srv.all_abstract();
     match guarded(|| srv.observe()) {
       Ok(o) => ev["post"] = o,
       Err(p) => ev["panic"] = json!(p),
